@@ -90,9 +90,19 @@ def sSet (s : Store) (k : Key) (v : Val) : Store := (k, v) :: sErase s k
 
 structure Cache where
   lru : Bool
+  sized : Bool                 -- values report their own `Size()` (here: v % 3 + 1) instead of the default 1
   cap : Nat
   ents : List (Key × Val)      -- most recently used first
 deriving DecidableEq, Repr
+
+/-- `_wrapper.Size()`: the value's own `Size()` when it has one, else 1 -/
+def vsize (sized : Bool) (v : Val) : Nat := if sized then v % 3 + 1 else 1
+
+/-- `checkCapacity`: entries are dropped from the back while the summed size exceeds the capacity — what stays is the
+longest prefix that fits (possibly nothing, not even the entry just written) -/
+def fit (sized : Bool) (cap : Nat) : Nat → List (Key × Val) → List (Key × Val)
+  | _, [] => []
+  | acc, e :: es => if acc + vsize sized e.2 ≤ cap then e :: fit sized cap (acc + vsize sized e.2) es else []
 
 def cPeek (c : Cache) (k : Key) : Option Val := sGet c.ents k
 
@@ -107,7 +117,7 @@ def cGet (c : Cache) (k : Key) : Option Val × Cache :=
 /-- `Set`: (re)place at the front; the LRU facade then evicts from the back down to `cap` entries -/
 def cSet (c : Cache) (k : Key) (v : Val) : Cache :=
   let e := (k, v) :: sErase c.ents k
-  { c with ents := if c.lru then e.take c.cap else e }
+  { c with ents := if c.lru then fit c.sized c.cap 0 e else e }
 
 /-! ### handler context: store, the worker's cache, remaining fault bits, callbacks invoked -/
 
@@ -146,15 +156,14 @@ def callUpd (c : Ctx) (k : Key) (v : Val) (e : Val) : Except Err Val × Ctx :=
     | none => (.error .notFound, c)
     | some _ => (.ok (e + v), { c with store := sSet c.store k (e + v) })
 
-/-- upsert: based on the existing item handed in, else on what the store holds (0 when absent) -/
+/-- upsert: merges the data into the row. Handed the existing item (cache hit) it returns the merged row; without it
+(`nil`: cache miss) it merges in the store and returns only what it was given — the partial row, as the API allows -/
 def callUpsert (c : Ctx) (k : Key) (v : Val) (e : Option Val) : Except Err Val × Ctx :=
   let (f, c) := c.call .upsert
   if f then (.error .inj, c)
-  else
-    let base := match e with
-      | some e => e
-      | none => (sGet c.store k).getD 0
-    (.ok (base + v), { c with store := sSet c.store k (base + v) })
+  else match e with
+    | some e => (.ok (e + v), { c with store := sSet c.store k (e + v) })
+    | none => (.ok v, { c with store := sSet c.store k ((sGet c.store k).getD 0 + v) })
 
 def callDel (c : Ctx) (k : Key) : Except Err Unit × Ctx :=
   let (f, c) := c.call .del
@@ -300,8 +309,8 @@ structure State where
   caches : List Cache
 deriving DecidableEq, Repr
 
-def State.init (lru : Bool) (cap workers : Nat) : State :=
-  { store := [], caches := List.replicate workers ⟨lru, cap, []⟩ }
+def State.init (lru sized : Bool) (cap workers : Nat) : State :=
+  { store := [], caches := List.replicate workers ⟨lru, sized, cap, []⟩ }
 
 /-- worker index of a key: `none` = `w.ws[w.locHash(k)]` panics -/
 def workerOf (loc : Loc) (workers : Nat) (k : Key) : Option Nat :=
@@ -345,9 +354,9 @@ inductive QAct
   | complete (w : Nat)               -- the oldest handler in flight on worker w finishes: its effect is applied
 deriving DecidableEq, Repr
 
-def qInit (lru : Bool) (cap workers : Nat) : QState :=
+def qInit (lru sized : Bool) (cap workers : Nat) : QState :=
   { pending := List.replicate workers [], busy := List.replicate workers 0, consumers := 0,
-    accepted := [], applied := [], st := State.init lru cap workers }
+    accepted := [], applied := [], st := State.init lru sized cap workers }
 
 def qStep (cfg : Cfg) (loc : Loc) (q : QState) : QAct → Option QState
   | .start =>
@@ -372,8 +381,8 @@ def qStep (cfg : Cfg) (loc : Loc) (q : QState) : QAct → Option QState
                     st := (step cfg loc q.st inp).1 }
     | _, _ => none
 
-def qLTS (cfg : Cfg) (loc : Loc) (lru : Bool) (cap workers : Nat) : LTS QState QAct :=
-  { init := qInit lru cap workers, step := qStep cfg loc }
+def qLTS (cfg : Cfg) (loc : Loc) (lru sized : Bool) (cap workers : Nat) : LTS QState QAct :=
+  { init := qInit lru sized cap workers, step := qStep cfg loc }
 
 /-- operations of worker w that are being handled right now -/
 def inFlight (q : QState) (w : Nat) : List (Op × List Bool) :=
